@@ -13,6 +13,7 @@ LINES_PER_OP = {
     "SchedDriver": lambda op: 1,
     "KvsmDriver": lambda op: 1,
     "FsDriver": lambda op: 1,
+    "NHApiDriver": lambda op: 1,
     "ApiDriver": lambda op: 1,
     "ElectDriver": lambda op: 1,
     "JepsenDriver": lambda op: len(op.get("events", [])) + 1,
@@ -94,6 +95,14 @@ CHECKS = {
                      "args": {"quick": ["-n", "12", "-len", "60"], "thorough": ["-n", "300", "-len", "150"]}}],
         "rule": "the real Drummer service implementation on a real in-process single-replica NodeHost running the real DB; (1) each malformed configuration call (no members, empty application name, empty region specification, region/count lists of different length) is tried in a child process - a child that dies is a fail-stopped replica; (2) sequences of 60 (quick) calls: SubmitChange over 3 shard ids (one in four malformed), SetRegions (one in three malformed), SetBootstrapped, ReportAvailableNodeHost with reports drawn from a membership history, the leader's own ticks and request batches, GetShards / GetNodeHostCollection / GetShardConfigChangeIndexList / GetShardStates (0..2 ids of 4, known or not) / GetDeploymentInfo; every answer is compared with the Lean model; evaluations = calls + probes; non-trivial = sequences",
         "assumptions": ["dragonboat SyncPropose / SyncRead are linearizable: an answer reflects the state at a single point between call and return (PARTIAL for concurrent callers: the correspondence uses sequential calls)"],
+    },
+    "C19": {
+        "lean": ["DrummerVerif.Props.C19", "DrummerVerif.Bridge.Bridge"],
+        "audit": ["DrummerVerif.Props.C19"],
+        "streams": [{"cmd": "nhapi", "driver": "NHApiDriver", "sections": None, "eval_re": r"^case:", "timeout": 1500,
+                     "args": {"quick": ["-n", "12"], "thorough": ["-n", "400"]}}],
+        "rule": "a real NodeHost hosting 1..4 shards (ids drawn from 6) of mixed state-machine types (KVTest regular, ConcurrentKVTest concurrent, DiskKVTest on-disk) started in a random order, the real NodehostAPI on top: 14 GetSession queries per NodeHost for hosted and non-hosted ids in random order (repeats exercise the cache); for every session handed out for a hosted shard a Propose and a Read through the facade are compared with the state machine's result and a local SyncRead; sessions are converted to the wire form and back; every dragonboat / context error value plus unlisted ones through GRPCError; answers compared with the Lean model; evaluations = queries + error mappings; non-trivial = NodeHosts",
+        "assumptions": ["dragonboat SyncGetSession / SyncPropose / SyncRead behave as documented (the facade's transparency is compared against them)"],
     },
     "C06": {
         "lean": ["DrummerVerif.Props.C06"],
